@@ -20,6 +20,7 @@ From NextestModel Require Model.Result Model.Dispatcher Model.Junit Model.UnitTi
 From NextestModel Require Model.Backoff Model.CliRun Proofs.CliRun.
 From NextestModel Require Model.AttemptDecision Proofs.AttemptDecision.
 From NextestModel Require Model.Overrides Model.Scripts.
+From NextestModel Require Model.SpawnSetup Proofs.SpawnSetup.
 Import ListNotations.
 Open Scope N_scope.
 
@@ -37,6 +38,8 @@ Module MA := NextestModel.Model.AttemptDecision.
 Module PA := NextestModel.Proofs.AttemptDecision.
 Module MO := NextestModel.Model.Overrides.
 Module MSc := NextestModel.Model.Scripts.
+Module MSp := NextestModel.Model.SpawnSetup.
+Module PSp := NextestModel.Proofs.SpawnSetup.
 
 (* boolean comparisons in hypotheses -> propositions lia understands *)
 Ltac b2p :=
@@ -709,3 +712,16 @@ Proof.
     unfold MSc.rule_matches; cbn [MSc.r_filter MSc.r_host_eval MSc.r_host_test_eval MSc.r_target_eval MSc.q_host];
     try rewrite E; bridge.
 Qed.
+
+(* ---------------------------------------------------------------- spawn-time set-up (Model/SpawnSetup.v, Model/Command.v) *)
+(* == block spawn_setup (needs conv_cli) == *)
+(* the ordered, guarded calls run_test_inner / TestCommand::spawn / imp::spawn / set_process_group make on the
+   Command satisfy everything C15 asks of the set-up, for every capture strategy (the list is closed once the
+   strategy is known: evaluation decides) *)
+Lemma gen_spawn_setup_is_model :
+  forall cap, MSp.setup_ok (cap_to_model cap) (G.run_test_inner_setup cap) = true.
+Proof. intros cap. destruct cap; vm_compute; reflexivity. Qed.
+Lemma gen_spawn_setup_stdin_and_group :
+  forall cap,
+    MSp.stdin_null (G.run_test_inner_setup cap) = true /\ MSp.own_process_group (G.run_test_inner_setup cap) = true.
+Proof. intros cap. exact (PSp.setup_ok_stdin_and_group _ _ (gen_spawn_setup_is_model cap)). Qed.
